@@ -135,6 +135,7 @@ func checkC01(c *Ctx) {
 	// declarations and types: the emitted program has to compile and to have the documented representation
 	c.checkPins(f, "C01.j", c03Pins)
 	r.Import("C15.", "C01.j", "", 40, func() { checkC15(c) })
+	r.Import("C02.b", "C01.o", "every whole-AST pass (constraint collection, type-variable collection, the transformer that applies the solved types) visits every sub-expression on every path (the TRAV rule of C02.b): a sub-expression the type resolution never reaches is emitted with unresolved types, and the program does not compile or means something else", 20, func() { checkTraversals(c, f, "C02.b") })
 	r.Import("C06.i", "C01.l", "a continuation token (else, elif, bar, operator) found after skipping line ends is accepted only inside the offside line — otherwise an inner construct takes the else of an outer one and the wrong branch runs (the C06.i rule; 2 known findings)", 2, func() { checkContinuationColumns(c, f) })
 	checkReviewedForms(c, f)
 	checkReviewedHandWritten(c, f)
